@@ -2,7 +2,8 @@ use crate::{NonLinearSystemError, SolveOutcomeFreedomAnalysis, solver::Model};
 
 pub(crate) trait Analysis: Sized {
     fn analyze(model: Model<'_>) -> Result<Self, NonLinearSystemError>;
-    fn no_constraints() -> Self;
+    /// Analysis of a system with no constraints over `num_vars` variables.
+    fn no_constraints(num_vars: usize) -> Self;
 }
 
 #[derive(Default, Debug)]
@@ -15,7 +16,7 @@ impl Analysis for NoAnalysis {
     }
 
     #[mutants::skip]
-    fn no_constraints() -> Self {
+    fn no_constraints(_num_vars: usize) -> Self {
         Self
     }
 }
@@ -36,10 +37,10 @@ impl Analysis for FreedomAnalysis {
         model.freedom_analysis()
     }
 
-    #[mutants::skip]
-    fn no_constraints() -> Self {
+    fn no_constraints(num_vars: usize) -> Self {
+        // With no constraints at all, every variable is free to move.
         Self {
-            underconstrained: Vec::new(),
+            underconstrained: (0..num_vars).map(|x| x as u32).collect(),
         }
     }
 }
